@@ -194,6 +194,17 @@ pub fn trace_op(lhs: &str) {
         c.clear();
         c.push_str(lhs);
     }
+    // crash diagnosis (second run after the harness process died): keep the running operation on disk
+    static F: std::sync::OnceLock<Option<std::sync::Mutex<std::fs::File>>> = std::sync::OnceLock::new();
+    let f = F.get_or_init(|| std::env::var("VERIF_TRACE_FILE").ok().and_then(|p| std::fs::File::create(p).ok()).map(std::sync::Mutex::new));
+    if let Some(m) = f {
+        use std::io::{Seek, SeekFrom, Write};
+        if let Ok(mut file) = m.lock() {
+            let _ = file.set_len(0);
+            let _ = file.seek(SeekFrom::Start(0));
+            let _ = file.write_all(lhs.as_bytes());
+        }
+    }
 }
 
 /// A call of the real code that never returns cannot be interrupted in-process.  The watchdog thread ends
